@@ -6,6 +6,7 @@ import (
 	"bytes"
 	"compress/gzip"
 	"fmt"
+	"io"
 	"strings"
 
 	"github.com/AdguardTeam/urlfilter/proxy"
@@ -103,7 +104,9 @@ func cmdReplayProxy(args []string) error {
 		if c.Res.Alt >= 0 {
 			ambiguous++
 		}
-		for _, enc := range []string{"", "gzip"} {
+		// "deferred": the filtered response is read only after another document went through the filter, as a proxy
+		// serving several connections does
+		for _, enc := range []string{"", "gzip", "deferred"} {
 			evals++
 			in := body
 			if enc == "gzip" {
@@ -113,7 +116,24 @@ func cmdReplayProxy(args []string) error {
 			var clen int64
 			var oenc, tag string
 			var ferr error
-			pv := safeCall(func() { outb, clen, oenc, tag, ferr = proxy.VerifFilterHTML(append([]byte{}, in...), enc, "page.test") })
+			pv := safeCall(func() {
+				if enc != "deferred" {
+					outb, clen, oenc, tag, ferr = proxy.VerifFilterHTML(append([]byte{}, in...), enc, "page.test")
+					return
+				}
+				res, t, err := proxy.VerifFilterHTMLResponse(append([]byte{}, in...), "", "page.test")
+				tag, ferr = t, err
+				if err != nil {
+					return
+				}
+				other := []byte("<html><head><title>another document</title></head><body>" + strings.Repeat("OTHER ", 1+ci%700) + "</body></html>")
+				if _, _, _, _, err = proxy.VerifFilterHTML(other, "", "other.test"); err != nil {
+					ferr = err
+					return
+				}
+				outb, ferr = io.ReadAll(res.Body)
+				clen, oenc = res.ContentLength, res.Header.Get("Content-Encoding")
+			})
 			why := ""
 			var want []byte
 			switch {
